@@ -163,6 +163,17 @@ def gen(tier, seed):
         model.TYPE_WRAP = None
     mods.append(union_module(f'm{n:04d}')); n += 1
     mods.append(generic_module(f'm{n:04d}')); n += 1
+    decl, anyv, vidx = S.big_enum('Clone')
+    hb = Harness('h_big', covers=['reached'])
+    bbody = decl + anyv + vidx + hb.attrs() + '''pub fn h_big() {
+    let a = anyv();
+    let c = a.clone();
+    kani::cover!(true, "reached");
+    let same = |x: &Big, y: &Big| match (x, y) { (Big::Last(p), Big::Last(q)) => p == q, _ => vidx(x) == vidx(y) };
+    assert!(same(&a, &c), "clone of a 261-variant enum changed the value");
+}
+'''
+    mods.append(Module(f'm{n:04d}', 'enum with 261 variants (V0..V259, Last(u8))', bbody, [hb], sample=dict(type_definition='enum Big { V0, .., V259, Last(u8) }'), functions=FUNCTIONS)); n += 1
     from .runner import empty_enum_module
     for el, b in [('Clone', 'Clone'), ('Copy, Clone', 'Copy + Clone')]:
         mods.append(empty_enum_module(f'm{n:04d}', el, b, FUNCTIONS)); n += 1
